@@ -236,6 +236,9 @@ func genTree(r *rand.Rand, n int, mode string) *treeu.JNode {
 		if r.Float64() > chain {
 			p = r.Intn(i)
 		}
+		if mode == "star" && i < n-3 { // one node with >= 128 children (two-byte child count)
+			p = 0
+		}
 		// pick a name not yet used among the siblings (unless duplicates are wanted)
 		var nm []byte
 		for try := 0; try < 40; try++ {
@@ -370,6 +373,12 @@ func gen(r *rand.Rand, idx int, tier string) Input {
 		n = lib.Range(r, 13, 40)
 	case 3:
 		n = lib.Range(r, 41, 200)
+	}
+	if in.Mode == "wf" && r.Intn(25) == 0 {
+		n = lib.Range(r, 133, 180)
+		in.Tree = genTree(r, n, "star")
+		in.Cap = pickCap(r, n)
+		return in
 	}
 	in.Tree = genTree(r, n, in.Mode)
 	in.Cap = pickCap(r, n)
